@@ -177,6 +177,15 @@ func (r *Run) eval(e *Env, x *SX) *Val {
 		n := *e
 		n.st = e.old
 		return r.eval(&n, args[0])
+	case "cast":
+		// (cast "*pkg.T" x): view an interface/pointer-valued term as a pointer to T (no check: guard with dyntype)
+		t := r.eng.typeByName(args[0].Atom)
+		if t == nil {
+			r.toolErr("%s: cast to unknown type %q", e.ctx, args[0].Atom)
+			return opaque("0")
+		}
+		v := r.eval(e, args[1])
+		return mkScalar(t, r.termOf(v))
 	case "pre":
 		if e.pre == nil {
 			r.toolErr("%s: (pre ...) is only meaningful inside a loop invariant: %s", e.ctx, x)
@@ -214,7 +223,9 @@ func (r *Run) eval(e *Env, x *SX) *Val {
 		case KMap:
 			mt := v.Ty.Underlying().(*types.Map)
 			_, lenN := mapArrNames(mt)
-			return intVal(app("select", r.heapArr(e.st, lenN, "Int"), v.T))
+			l := app("select", r.heapArr(e.st, lenN, "Int"), v.T)
+			e.st.assume(app("<=", "0", l)) // a map's size is never negative
+			return intVal(l)
 		case KOpaque:
 			return intVal(app("str.len", v.T))
 		}
@@ -278,6 +289,21 @@ func (r *Run) eval(e *Env, x *SX) *Val {
 			return opaque(r.fresh("nocall", "Int"))
 		}
 		return res[i]
+	case "elemfield":
+		// (elemfield s "Field.Path"): the array holding that field of every element of slice s (index with absolute positions)
+		v := r.eval(e, args[0])
+		if v.K != KSlice {
+			r.toolErr("%s: elemfield of non-slice in %s", e.ctx, x)
+			return opaque("0")
+		}
+		et := v.Ty.Underlying().(*types.Slice).Elem()
+		for _, lf := range structLeaves(et) {
+			if lf.name == args[1].Atom {
+				return opaque(app("select", r.heapArr(e.st, sliceArrayName(et, lf.name)+v.Fam, "(Array Int "+scalarSort(lf.ty)+")"), v.Ref))
+			}
+		}
+		r.toolErr("%s: no field %s in elements of %s", e.ctx, args[1].Atom, x)
+		return opaque("0")
 	case "elemarr":
 		v := r.eval(e, args[0])
 		if v.K != KSlice {
@@ -380,7 +406,21 @@ func (r *Run) eval(e *Env, x *SX) *Val {
 			ne.vars[b.List[0].Atom] = opaque(b.List[0].Atom)
 			binds = append(binds, "("+b.List[0].Atom+" "+b.List[1].String()+")")
 		}
+		before := len(e.st.pc)
+		var beforeOld int
+		if e.old != nil {
+			beforeOld = len(e.old.pc)
+		}
 		body := r.evalTerm(ne, args[1])
+		// side assumptions (type ranges of loaded values) that mention the bound variables make no sense outside the binder
+		var names []string
+		for _, b := range args[0].List {
+			names = append(names, b.List[0].Atom)
+		}
+		dropBound(e.st, before, names)
+		if e.old != nil {
+			dropBound(e.old, beforeOld, names)
+		}
 		return boolVal("(" + h + " (" + strings.Join(binds, " ") + ") " + body + ")")
 	case "!":
 		body := r.evalTerm(e, args[0])
@@ -486,4 +526,40 @@ func (r *Run) callResultType(name, k string, i int) types.Type {
 		}
 	}
 	return nil
+}
+
+func dropBound(st *State, from int, names []string) {
+	if from >= len(st.pc) {
+		return
+	}
+	keep := st.pc[:from:from]
+	for _, a := range st.pc[from:] {
+		bad := false
+		for _, n := range names {
+			if hasToken(a, n) {
+				bad = true
+				break
+			}
+		}
+		if bad {
+			delete(st.lits, a)
+		} else {
+			keep = append(keep, a)
+		}
+	}
+	st.pc = keep
+}
+
+func hasToken(s, tok string) bool {
+	for i := 0; i+len(tok) <= len(s); i++ {
+		if s[i:i+len(tok)] != tok {
+			continue
+		}
+		okL := i == 0 || strings.ContainsRune(" ()", rune(s[i-1]))
+		okR := i+len(tok) == len(s) || strings.ContainsRune(" ()", rune(s[i+len(tok)]))
+		if okL && okR {
+			return true
+		}
+	}
+	return false
 }
